@@ -18,7 +18,7 @@ func init() {
 	register(&Prop{
 		ID:    "C12",
 		Level: "exploration",
-		Rule: "case = (capability set with or without LITERAL-, 1..4 rounds of 1..6 pipelined client commands chosen so that RFC 9051 5.5 allows pipelining them: NOOP, STATUS on distinct mailboxes, UID FETCH / UID STORE on disjoint UIDs, CREATE/DELETE/SUBSCRIBE, NAMESPACE, UID SEARCH RETURN answered by ESEARCH with TAG, and ordered classes LIST, SEARCH, EXPUNGE, APPEND with accepted or refused literal; optionally a SELECT refused before LOGIN and a final SELECT answered by BYE and a closed connection; between rounds optionally a SELECT of another mailbox (accepted or refused, with or without [CLOSED]) and an IDLE that the server accepts (updates, DONE) or refuses with a tagged NO/BAD instead of the continuation request; a scripted server that answers the groups in any order the RFC permits (order kept inside an ambiguity class), interleaves unilateral EXISTS / EXPUNGE / FLAGS / PERMANENTFLAGS / FETCH anywhere, and assigns OK / NO / BAD with and without response codes), segmentation and schedule. " +
+		Rule: "case = (capability set with or without LITERAL-, 1..4 rounds of 1..6 pipelined client commands chosen so that RFC 9051 5.5 allows pipelining them: NOOP, STATUS on distinct mailboxes, UID FETCH / UID STORE on disjoint UIDs, FETCH by sequence number (ordered class; its numbers overlap with the unsolicited FETCH data), CREATE/DELETE/SUBSCRIBE, NAMESPACE, UID SEARCH RETURN answered by ESEARCH with TAG, and ordered classes LIST, SEARCH, EXPUNGE, APPEND with accepted or refused literal; optionally a SELECT refused before LOGIN and a final SELECT answered by BYE and a closed connection; between rounds optionally a SELECT of another mailbox (accepted or refused, with or without [CLOSED]) and an IDLE that the server accepts (updates, DONE) or refuses with a tagged NO/BAD instead of the continuation request; a scripted server that answers the groups in any order the RFC permits (order kept inside an ambiguity class), interleaves unilateral EXISTS / EXPUNGE / FLAGS / PERMANENTFLAGS / FETCH anywhere, and assigns OK / NO / BAD with and without response codes), segmentation and schedule. " +
 			"Oracle: reference interpretation of the exact transcript (per-tag status and data, mailbox summary, connection state). Non-trivial: at least one pipelined round was compared. Distinct: distinct event-log hashes.",
 		Components:   "real: imapclient.Client, internal/imapwire (woven); stub: conformant-but-adversarially-ordered scripted server (independent scanner on the command side), network, clock, scheduler",
 		Assumptions:  []string{"the caller pipelines only what RFC 9051 5.5 allows (Appendix C)", "state and mailbox summary are compared after a NOOP round trip, i.e. when every earlier server line has been processed"},
@@ -45,10 +45,19 @@ type c12cmd struct {
 	NoData bool // the server sends no untagged data for this (failing) command
 	Refuse bool // APPEND: refuse the synchronising literal with this command's status (NO/BAD)
 	// filled at run time
-	tag  string
-	wait func() string // returns "" or a description of a data mismatch
-	err  error
-	done bool
+	tag   string
+	wait  func() string // returns "" or a description of a data mismatch
+	err   error
+	done  bool
+	model *c12model
+}
+
+// sentFor: the flag lists of the unsolicited FETCH responses sent for this command's message in its round.
+func (c *c12cmd) sentFor() []string {
+	if c.model == nil {
+		return nil
+	}
+	return c.model.unsolFetch[c.N]
 }
 
 // (mailbox names are case-sensitive except INBOX: "alpha" and "Alpha" are two mailboxes)
@@ -57,7 +66,7 @@ var c12boxes = []string{"Alpha", "Bravo", "Charlie", "Delta", "Echo", "Foxtrot",
 func genC12Round(t *simrt.Tape, syncLiterals bool) []*c12cmd {
 	n := 1 + t.Choose(6)
 	var cmds []*c12cmd
-	usedBox, usedUID := map[int]bool{}, map[int]bool{}
+	usedBox, usedUID, usedSeq := map[int]bool{}, map[int]bool{}, map[int]bool{}
 	hasNS := false
 	for len(cmds) < n {
 		c := &c12cmd{Status: "OK", Text: "done"}
@@ -69,7 +78,16 @@ func genC12Round(t *simrt.Tape, syncLiterals bool) []*c12cmd {
 				c.Code = []string{"NONEXISTENT", "CANNOT", "LIMIT", "ALREADYEXISTS"}[t.Choose(4)]
 			}
 		}
-		switch t.Choose(14) {
+		switch t.Choose(15) {
+		case 14:
+			// FETCH by sequence number (ordered with the other sequence-number commands); the numbers overlap with the
+			// server's unsolicited FETCH data on purpose
+			n := 1 + t.Choose(5)
+			if usedSeq[n] {
+				continue
+			}
+			usedSeq[n] = true
+			c.Kind, c.Class, c.N, c.Flags = "seqfetch", "seq", uint32(n), genFlagList(t)
 		case 0:
 			c.Kind = "noop"
 		case 1, 2:
@@ -85,7 +103,7 @@ func genC12Round(t *simrt.Tape, syncLiterals bool) []*c12cmd {
 				continue
 			}
 			usedUID[u] = true
-			c.Kind, c.UID, c.Flags, c.N = []string{"uidfetch", "uidstore"}[t.Choose(2)], imap.UID(u), genFlagList(t), uint32(1+t.Choose(9))
+			c.Kind, c.UID, c.Flags, c.N = []string{"uidfetch", "uidstore"}[t.Choose(2)], imap.UID(u), genFlagList(t), uint32(6+t.Choose(9)) // (sequence numbers 1..5 belong to the FETCH-by-number commands)
 		case 5:
 			c.Kind, c.Arg = []string{"create", "delete", "subscribe"}[t.Choose(3)], "box"+fmt.Sprint(len(cmds))
 		case 6:
@@ -131,6 +149,8 @@ type c12model struct {
 	count  uint32
 	flags  []imap.Flag
 	pflags []imap.Flag
+	// unsolFetch: flag lists of the unsolicited "* n FETCH (FLAGS ...)" lines sent in the current round, by n
+	unsolFetch map[uint32][]string
 }
 
 func runC12(r *R) {
@@ -510,6 +530,38 @@ func c12Issue(c *imapclient.Client, cmd *c12cmd) {
 			}
 			return ""
 		}
+	case "seqfetch":
+		x := c.Fetch(imap.SeqSetNum(cmd.N), &imap.FetchOptions{Flags: true})
+		cmd.wait = func() string {
+			msgs, err := x.Collect()
+			cmd.err = err
+			// FETCH data for message n that arrives while the command is pending may be taken for its answer, but
+			// only once: the command receives at most one message, number n, with one of the flag lists sent for n
+			if len(msgs) > 1 {
+				var got []string
+				for _, m := range msgs {
+					got = append(got, fmt.Sprintf("seq %d flags %v", m.SeqNum, m.Flags))
+				}
+				return fmt.Sprintf("FETCH %d delivered %d messages: %v", cmd.N, len(msgs), got)
+			}
+			if len(msgs) == 1 {
+				if msgs[0].SeqNum != cmd.N {
+					return fmt.Sprintf("FETCH %d delivered data of message %d", cmd.N, msgs[0].SeqNum)
+				}
+				ok := fmt.Sprint(flagStrs(msgs[0].Flags)) == fmt.Sprint(flagStrs(cmd.Flags)) && !cmd.NoData
+				for _, f := range cmd.sentFor() {
+					if f == fmt.Sprint(flagStrs(msgs[0].Flags)) {
+						ok = true
+					}
+				}
+				if !ok {
+					return fmt.Sprintf("FETCH %d delivered flags %v, which no FETCH response for message %d carried (sent for the command: %v, NoData=%v; unsolicited: %v)", cmd.N, msgs[0].Flags, cmd.N, cmd.Flags, cmd.NoData, cmd.sentFor())
+				}
+			} else if !cmd.NoData && err == nil {
+				return fmt.Sprintf("FETCH %d delivered no message although '* %d FETCH' was sent for it", cmd.N, cmd.N)
+			}
+			return ""
+		}
 	case "create":
 		x := c.Create(cmd.Arg, nil)
 		cmd.wait = func() string { cmd.err = x.Wait(); return "" }
@@ -602,6 +654,7 @@ func c12ServeRound(r *R, srv *scriptSrv, st *simrt.Tape, round []*c12cmd, model 
 	// APPEND literals: accept or refuse as planned (the client stops at a synchronising literal,
 	// so commands are read one by one and matched with the plan by position)
 	idx := 0
+	model.unsolFetch = nil
 	srv.onSyncLiteral = func(tag string, size int64) (string, time.Duration) {
 		if idx < len(round) && round[idx].Kind == "append" && round[idx].Refuse {
 			c := round[idx]
@@ -632,6 +685,9 @@ func c12ServeRound(r *R, srv *scriptSrv, st *simrt.Tape, round []*c12cmd, model 
 			g.untagged = []string{fmt.Sprintf("* STATUS %s (MESSAGES %d)", c.Arg, c.N)}
 		case "uidfetch", "uidstore":
 			g.untagged = []string{fmt.Sprintf("* %d FETCH (UID %d FLAGS %s)", c.N, c.UID, flagListText(c.Flags))}
+		case "seqfetch":
+			g.untagged = []string{fmt.Sprintf("* %d FETCH (FLAGS %s)", c.N, flagListText(c.Flags))}
+			c.model = model
 		case "namespace":
 			g.untagged = []string{fmt.Sprintf(`* NAMESPACE (("%s" "/")) NIL NIL`, c.Arg)}
 		case "esearch":
@@ -688,7 +744,12 @@ func c12ServeRound(r *R, srv *scriptSrv, st *simrt.Tape, round []*c12cmd, model 
 			model.pflags = genFlagList(st)
 			srv.send("* OK [PERMANENTFLAGS " + flagListText(model.pflags) + "] changed")
 		case 4:
-			srv.send(fmt.Sprintf("* %d FETCH (FLAGS %s)", 1+st.Choose(5), flagListText(genFlagList(st))))
+			n, fl := uint32(1+st.Choose(5)), genFlagList(st)
+			if model.unsolFetch == nil {
+				model.unsolFetch = map[uint32][]string{}
+			}
+			model.unsolFetch[n] = append(model.unsolFetch[n], fmt.Sprint(flagStrs(fl)))
+			srv.send(fmt.Sprintf("* %d FETCH (FLAGS %s)", n, flagListText(fl)))
 		}
 	}
 	remaining := 0
